@@ -123,6 +123,9 @@ Section Pool.
     {| gossiped := filter (fun c => keep (sc_height c)) (gossiped p);
        nongossiped := filter (fun c => keep (sc_height c)) (nongossiped p) |}.
 
+  (* Executer.deleteBlock (fix 5889739): the pool drops the commits at or above the height of the removed block *)
+  Definition on_delete_block (p : pool) (height : N) : pool := cleanup p (fun h => h <? height).
+
   (* SingleCommits.Sort: ascending by height; stable insertion sort (what sort.Slice does below 12 elements) *)
   Fixpoint insert_h (x : single_commit) (l : list single_commit) : list single_commit :=
     match l with
@@ -184,6 +187,7 @@ Arguments certify_one {sigT} _ _ _ _ _.
 Arguments certify_range {sigT} _ _ _ _ _ _.
 Arguments certify {sigT} _ _ _ _ _ _.
 Arguments cleanup {sigT} _ _.
+Arguments on_delete_block {sigT} _ _.
 Arguments select {sigT} _ _ _.
 Arguments upgrade {sigT} _ _.
 Arguments sort_h {sigT} _.
